@@ -196,7 +196,13 @@ def run_case(tape, tier):
     limit = horizon + tymeout * tape.pick("after", [1.6, 2.5, 0.8]) + 6 * tock
     if limit / tock > 440:
         limit = 440 * tock
-    cfg = dict(tls=tls, bare=bare, tymeout=tymeout, tock=tock, limit=limit, clients=specs)
+    # the server is handed to another clock while it holds connections (the way a server object moves from one scheduler to
+    # the next): the other clock runs in step with the first at a constant offset; every idle period starts afresh there
+    rewind = None
+    if tape.flag("rewind", 1, 5):
+        rewind = dict(at=(2 + tape.draw("rewind_cycle", max(1, int(horizon / tock) + 4))) * tock,
+                      delta=tape.pick("rewind_delta", [64.0, -8.0, 16.0]))
+    cfg = dict(tls=tls, bare=bare, tymeout=tymeout, tock=tock, limit=limit, clients=specs, rewind=rewind)
     raised = []
     downloads = [sp for sp in specs if sp["kind"] == "download"]
     if downloads:
@@ -222,6 +228,8 @@ def run_case(tape, tier):
             if sp["kind"] == "download":
                 c.read_rate = sp["rate"]
 
+        rewound = {}     # sid of the server-side socket -> tyme (first clock) at which its idle period started afresh
+
         class Srv(doing.Doer):
             def enter(s, *, temp=None):
                 net.current_owner = "server"
@@ -233,6 +241,14 @@ def run_case(tape, tier):
 
             def recur(s, tyme):
                 net.current_owner = "server"
+                if rewind is not None and not rewound and tyme >= rewind["at"] - 1e-9:
+                    for ix in list(server.servant.ixes.values()):
+                        raw = getattr(ix.cs, "sock", ix.cs)
+                        if raw is not None:
+                            rewound[raw.sid] = tyme
+                    rewound[None] = tyme
+                    server.servant.wind(lambda: doist.tyme + rewind["delta"])
+                    res.faults["server_rewound_to_other_clock_with_%d_connections" % min(2, len(rewound) - 1)] += 1
                 try:
                     server.service()
                 except _CaseTimeout:
@@ -289,6 +305,8 @@ def run_case(tape, tier):
                     # into the kernel has not been sent as far as SSL_write's caller can tell)
                     wrapped = [w for w in net.tls_sockets if w.sock is srv]
                     tymes = wrapped[0].io_tymes if wrapped else []
+                if srv.sid in rewound:
+                    tymes = sorted(list(tymes) + [rewound[srv.sid]])
                 closed = srv.closed_tyme
                 # closes that happened in the final exit of the run are not idle closes
                 if closed is not None and closed >= end_tyme - eps:
